@@ -57,5 +57,10 @@ def start_time(res, exname):
     """Virtual instant at which the execution's StartTime was taken (the StartExecution call)."""
     for ex, rec in res.start_calls:
         if ex.get("name") == exname and rec is not None:
+            # the instant the handler took as StartTime (it answers with it as startDate): a stalled instance serves the
+            # call only when the stall is over, and that - not the instant the client sent the request - is the start
+            j = rec.get("json")
+            if isinstance(j, dict) and isinstance(j.get("startDate"), (int, float)) and not isinstance(j.get("startDate"), bool):
+                return float(j["startDate"])
             return rec["t0"]
     return None
